@@ -57,6 +57,8 @@ THEOREMS = [
     'CpProofs.C11.C11_links_weak_normalised',
     'CpProofs.C11.C11_links_strong_false',
     'CpProofs.C11.C11_links_weak_false',
+    'CpProofs.C11.C11_links_weak_session_false',
+    'CpProofs.C11.C11_links_weak_partial_session',
     # the concrete percent-decoder; characters that do not separate; staticfile; __len__
     'CpProofs.C11.C11_static_contained_unquote',
     'CpProofs.C11.C11_refused_untouched_unquote',
@@ -77,42 +79,59 @@ THEOREMS = [
     'CpProofs.C11.session_id_noslash_one_below',
 ]
 LEVEL = 'proof'
-TECHNIQUE = ('Lean 4 proof over a transcription of posixpath.normpath/join/abspath, staticdir and '
-             'FileSession._get_file_path (induction over the component list); tied to the code by a '
-             'differential run that records every file-system access of the real code in a sandbox')
-LEVEL_TEXT = ('Proved in Lean for every configured dir/root, section, request path, percent-decoder, stat answer, cwd, '
-              'storage path, cookie value and generated id (no size bound; induction over str.split("/") and the normpath '
-              'stack): every path staticdir hands to stat/open (file name and index fallback) and every path the five '
-              'FileSession methods, clean_up and the whole per-request session flow test, read, write, lock or unlink '
-              'normalises to an absolute path of plain components that starts with ALL components of the root; a refused '
-              'request (403 / 400 / ValueError / pass-through) has an empty access list; in a symlink-free tree the object '
-              'the OS reaches for such an un-normalised path (or the place where it would create the last component) is '
-              'exactly the normalised one. normpath is proved idempotent and shape-preserving. The pre-repair '
-              'string-prefix tests are kept as definitions with proved counterexamples (F10, F11). Partial: the index '
-              'name is assumed plain (trusted configuration; necessity proved), unquote / cookie parsing / regex / '
-              'filelock / the kernel are parameters validated by the differential run only.')
-LEVEL_NOTE = ('Trusted: Lean kernel (axioms propext, Classical.choice, Quot.sound only); the hand model '
-              'lean/CpModel/PathContain.lean as validated on every run against the real staticdir / FileSession inside a '
-              'sandbox where every stat/open/unlink/listdir/mkdir is recorded, and against os.path / urllib.parse.unquote '
-              'on random strings; symlink-free POSIX trees; expanduser, Windows branches and conditional requests not '
+TECHNIQUE = ('Lean 4 proof over a transcription of posixpath.normpath/join/abspath, urllib.parse.unquote, staticdir / '
+             'staticfile, FileSession._get_file_path and the kernel\'s path walk with and without symbolic links '
+             '(induction over the component list); tied to the code by a differential run that records every '
+             'file-system access of the real code in a sandbox')
+LEVEL_TEXT = ('Proved in Lean for every configured dir/root, section, request path, percent-decoder (and for the concrete '
+              'transcription of urllib.parse.unquote), stat answer, cwd, storage path, cookie value and generated id (no '
+              'size bound; induction over str.split("/") and the normpath stack): every path staticdir hands to stat/open '
+              '(file name and index fallback), the one path staticfile uses, and every path the five FileSession methods, '
+              '__len__, clean_up and the whole per-request session flow test, read, write, lock, list or unlink normalises '
+              'to an absolute path of plain components that starts with ALL components of the root; a refused request '
+              '(403 / 400 / ValueError / pass-through) has an empty access list; only "/" separates (backslash, drive '
+              'letters, ";", NUL, "%" are ordinary characters: such a name is exactly one component below the root); a '
+              'decoded branch containing NUL is never served; the decoder is single-pass (%252e is %2e, not "."). '
+              'Kernel side: the path walk is modelled with symbolic links (finite map, fuel = 40 link expansions); if the '
+              'walk of such a path meets no link, or the string handed over has no ".." component and no link sits at / '
+              'above / below the root, the object reached is at or below the root (C11_links_prefix_free, '
+              'C11_links_weak_partial[_static|_session]). With a directory link OUTSIDE the root and ".." in the request '
+              'the code reaches outside objects (lexical test, un-normalised string to the kernel): negations '
+              'C11_links_weak_false / C11_links_weak_session_false with witnesses, replayed on the real code as known '
+              'findings F32 / F32b; C11_links_weak_normalised shows that handing the normalised name over would close it. '
+              'The pre-repair string-prefix tests are kept as definitions with proved counterexamples (F10, F11). Partial: '
+              'the index name is assumed plain (trusted configuration; necessity proved); cookie parsing, the regular '
+              'expression engine, filelock and the kernel are validated by the differential run only.')
+LEVEL_NOTE = ('Trusted: Lean kernel (axioms propext, Classical.choice, Quot.sound only); the hand models '
+              'lean/CpModel/PathContain.lean + PathLinks.lean as validated on every run against the real staticdir / '
+              'staticfile / FileSession inside a sandbox where every stat/lstat/open/unlink/listdir/mkdir/rename/... is '
+              'recorded (a self-test probes 61 os / os.path / io / pathlib / glob / shutil / codecs entry points before each '
+              'run), against os.path / urllib.parse.unquote on random strings and against os.stat / os.lstat / realpath on '
+              'trees with and without symbolic links; POSIX only; expanduser, Windows branches and conditional requests not '
               'modelled.')
 TRUSTED_BASE = [
-    'the OS resolves a path without symlinks to what the lexical walk of its components gives '
-    '(modelled by `resolve`, compared with os.stat on the sandbox tree, not proved about the kernel)',
-    'urllib.parse.unquote, the cookie parser and the regular-expression engine are parameters: theorems hold for '
-    'every function in their place; the executable unquote in the model is compared with urllib on every run',
+    'the kernel resolves a path the way `walk` / `resolve` do (components, "..", symbolic links with 40 expansions): '
+    'compared with os.stat / os.lstat / os.path.realpath on the sandbox trees on every run, not proved about Linux',
+    'the cookie parser and the regular-expression engine are parameters: theorems hold for every cookie value / match '
+    'verdict; urllib.parse.unquote is transcribed and compared with the library on every run',
     'filelock.FileLock touches only the lock file it is given and that file\'s directory (observed, not modelled)',
 ]
 ASSUMPTIONS = [
-    'symlink-free trees, POSIX paths, configured dir does not start with "~" (expanduser not modelled)',
+    'POSIX paths, configured dir does not start with "~" (expanduser not modelled)',
     'the configured index name is a plain relative name (no "..", not absolute): configuration is trusted',
     'no conditional request headers (validate_since can end serve_file between stat and open)',
+    'the statement is read for symlink-free surroundings (its own quantifier); links inside the root are the '
+    'operator\'s content; what happens with links outside the root is recorded as F32 / F32b',
 ]
-RULE = ('URL paths / cookie values / session ids from a traversal grammar (.., %2e%2e, ..%2f, %252e, //, leading /, '
-        'backslash, NUL, over-long UTF-8, names extending the root name, sibling dirs root-evil / rootx, session-* '
-        'sub-directories) x root names x mount sections x dir spellings x index/match options, through in-process WSGI '
-        'and through direct calls; plus random strings for the path algebra.  Non-trivial = the request reached '
-        'staticdir / the session code with a path that is not a plain existing name; distinct = distinct case JSON')
+RULE = ('URL paths / cookie values / session ids from a traversal grammar (.., %2e%2e, ..%2f, %252e and other decode-order '
+        'variants, //, leading /, backslash and drive letters, ";" parameters, NUL, over-long UTF-8, paths beyond PATH_MAX, '
+        'names extending the root name, sibling dirs root-evil / rootx, session-* sub-directories, every byte value and '
+        'some non-latin-1 code points inside an id) x root names x mount sections (regex characters, trailing slashes) x '
+        'dir / root / storage spellings (absolute, relative, trailing slashes, "..") x index / match / content_types / debug '
+        'options x staticdir / staticfile, through in-process WSGI and through direct calls; the same on a sandbox flavour '
+        'with symbolic links inside and outside the roots; plus random strings for the path algebra and random walks for '
+        'the kernel model.  Non-trivial = the request reached staticdir / the session code with a path that is not a plain '
+        'existing name; distinct = distinct case JSON')
 
 
 def _lean_chars(s):
@@ -183,6 +202,8 @@ def model_line(case, obs):
             return 'sfile %s %d %s %s %s' % (T(rf['method']), 1 if rf['match_ok'] else 0, T(rf['filename']),
                                              T(rf['root']), obs['k1'])
         r = obs['routed']
+        if not isinstance(r['index'], str):
+            return None         # a list / tuple as index: os.path.join raises TypeError (500); oracle only
         return 'static %s %d %s %s %s %s %s %s %s' % (
             T(r['method']), 1 if r['match_ok'] else 0, T(r['section']), T(r['dir']), T(r['root']),
             T(r['index']), T(r['path_info']), obs['k1'], obs['k2'])
@@ -255,6 +276,7 @@ def compare(case, obs, line):
 
 
 COV_HITS = set()
+HANGS = []
 
 
 def _trivial(case, obs):
@@ -313,6 +335,8 @@ def check_cases(ctx, cases, compare_model=True, procs=1, one_per_task=False):
             ctx.count(h)
         if obs.get('harness_error'):
             raise common.HarnessError('%s on case %s' % (obs['harness_error'], json.dumps(case)[:400]))
+        if obs.get('skipped'):
+            continue
         for item in obs.get('oracle', []):
             what, sig = item[0], item[1]
             ctx.oracle_fail(item[2] if len(item) > 2 else case, what, sig)
@@ -320,6 +344,8 @@ def check_cases(ctx, cases, compare_model=True, procs=1, one_per_task=False):
             ctx.count(key, n)
         if obs.get('code_raised'):
             # an exception of the code under test where the unchanged tree raises none
+            if obs['code_raised'].startswith('hang'):
+                HANGS.append(case)
             ctx.compared()
             ctx.disagree(case, obs['code_raised'], 'no exception (unchanged tree: the runner completes)',
                          'C11 %s: the code under test raised out of the runner' % case['k'])
@@ -392,7 +418,7 @@ def run(ctx):
     if not os.environ.get('C11_NO_CORPUS'):      # self-test switch: judge the generators alone
         check_cases(ctx, corpus_cases())
         check_cases(ctx, gen.F32_WITNESSES)         # known findings: replayed on every run
-    procs = 1 if ctx.quick() else 16
+    procs = min(4, os.cpu_count() or 1) if ctx.quick() else 16
     rng = ctx.rng
     cases = []
     cases += [gen.static_case(rng) for _ in range(ctx.budget(2600, 120000))]
@@ -412,11 +438,11 @@ def run(ctx):
     links += [gen.links_sess_case(rng) for _ in range(ctx.budget(200, 8000))]
     links += [gen.lres_case(rng) for _ in range(ctx.budget(400, 12000))]
     mark('selftest+corpus+generate')
-    if procs > 1:
+    if ctx.quick():
+        check_cases(ctx, cases + links, procs=procs)
+    else:
         check_cases(ctx, cases, procs=procs)
         check_cases(ctx, links, procs=procs)
-    else:
-        check_cases(ctx, cases + links, procs=1)
     mark('cases')
     # two-thread schedules: each sweep is its own task (a sweep is 50-3000 scheduled runs)
     check_cases(ctx, conc, procs=min(8 if ctx.quick() else 16, os.cpu_count() or 2), one_per_task=True)
@@ -435,6 +461,9 @@ def report_coverage(ctx):
 
 def search(ctx, around=None):
     """Deeper oracle-only hunt (called when the proof or the correspondence broke)."""
+    if HANGS:
+        ctx.note('search skipped: the code under test hangs (first on %s)' % json.dumps(HANGS[0])[:300])
+        return
     rng = ctx.rng
     cases = []
     if around is not None and around.get('k') in ('static', 'sess_unit', 'sess_wsgi'):
